@@ -1,7 +1,750 @@
-//! C13 — not built yet.
-use vcore::Ctx;
+//! C13 — the parser accepts exactly GraphQL documents and builds the tree they denote.
+//! Positive direction: documents printed from generated ASTs (random trivia, escapes, block strings) must parse
+//! to the generating tree. Negative direction: near-miss mutations are judged by the reference parser
+//! (vgql::refparse, written from the specification) — accept iff it accepts; when both accept, equal trees.
+use crate::agconv;
+use async_graphql_parser::types as ag;
+use async_graphql_parser::{parse_query, parse_schema};
+use vcore::{Case, Ctx, Src};
+use vgql::ast::*;
+use vgql::gendoc::*;
+use vgql::print::{Printer, Style};
+use vgql::refparse::{self, *};
 
-pub fn run(_ctx: &mut Ctx) {
-    eprintln!("C13: check not built yet");
-    std::process::exit(2);
+pub struct Printed {
+    pub text: String,
+    pub doc: Doc,
+    pub classes: Vec<&'static str>,
+    pub nontrivial: bool,
 }
+
+/// style switches for the constructs of OPEN findings (excluded by construction from the main streams)
+#[derive(Clone, Copy)]
+pub struct Excl {
+    pub type_trivia: bool,
+    pub comment_after_on: bool,
+    pub block_escaped_quotes: bool,
+    pub default_then_directive: bool,
+}
+impl Excl {
+    pub fn from_ctx(ctx: &mut Ctx) -> Excl {
+        Excl {
+            type_trivia: ctx.open("C13-F1"),
+            default_then_directive: ctx.open("C13-F3"),
+            block_escaped_quotes: ctx.open("C13-F4"),
+            comment_after_on: ctx.open("C13-F6"),
+        }
+    }
+    pub fn none() -> Excl {
+        Excl { type_trivia: false, comment_after_on: false, block_escaped_quotes: false, default_then_directive: false }
+    }
+}
+
+pub fn style<'a>(s: &'a mut dyn Src, ex: Excl) -> Style<'a> {
+    let mut st = Style::fuzzy(s);
+    st.trivia_in_types = !ex.type_trivia;
+    st.comment_after_on = !ex.comment_after_on;
+    st.block_escaped_quotes = !ex.block_escaped_quotes;
+    st
+}
+
+pub fn gen_printed_exec(s: &mut dyn Src, ex: Excl) -> Printed {
+    let cfg = GenCfg { default_then_directive: !ex.default_then_directive, ..GenCfg::default() };
+    let mut doc = gen_exec_doc(s, &cfg);
+    let mut p = Printer::new(style(s, ex));
+    p.doc(&mut doc);
+    let mut classes = vec![];
+    if p.n_lone_cr > 0 {
+        classes.push("lone-cr");
+    }
+    if p.n_crlf > 0 {
+        classes.push("crlf");
+    }
+    if p.n_comments > 0 {
+        classes.push("comment");
+    }
+    if p.n_bom > 0 {
+        classes.push("bom");
+    }
+    if p.n_block_strings > 0 {
+        classes.push("block-string");
+    }
+    if p.n_block_indented > 0 {
+        classes.push("block-string-indented");
+    }
+    if p.n_escapes > 0 {
+        classes.push("string-escape");
+    }
+    if p.n_nonascii_trivia > 0 {
+        classes.push("non-ascii-in-comment");
+    }
+    let has_list_ty = doc.ops().any(|o| o.vars.iter().any(|v| v.ty.ty.is_list()));
+    if has_list_ty {
+        classes.push("list-type");
+    }
+    let nontrivial = p.n_escapes > 0 || p.n_block_indented > 0 || has_list_ty;
+    Printed { text: p.out, doc, classes, nontrivial }
+}
+
+fn numbers_in_domain(d: &Doc) -> bool {
+    // ints must fit i64/u64 and not be "-0"; floats must be finite in f64 (what such literals denote in a
+    // 64-bit value model is unspecified)
+    fn val(v: &PVal) -> bool {
+        match &v.v {
+            Val::Int(t) => t != "-0" && (t.parse::<i64>().is_ok() || t.parse::<u64>().is_ok()),
+            Val::Float(t) => t.parse::<f64>().map_or(false, |f| f.is_finite()),
+            Val::List(l) => l.iter().all(val),
+            Val::Obj(o) => o.iter().all(|(_, v)| val(v)),
+            _ => true,
+        }
+    }
+    fn dirs(ds: &[Directive]) -> bool {
+        ds.iter().all(|d| d.args.iter().all(|(_, v)| val(v)))
+    }
+    fn sel(s: &SelSet) -> bool {
+        s.items.iter().all(|it| match it {
+            Selection::Field(f) => f.args.iter().all(|(_, v)| val(v)) && dirs(&f.directives) && sel(&f.sel),
+            Selection::Inline(i) => dirs(&i.directives) && sel(&i.sel),
+            Selection::Spread(s) => dirs(&s.directives),
+        })
+    }
+    d.defs.iter().all(|def| match def {
+        Def::Op(o) => o.vars.iter().all(|v| v.default.as_ref().map_or(true, val) && dirs(&v.directives)) && dirs(&o.directives) && sel(&o.sel),
+        Def::Frag(f) => dirs(&f.directives) && sel(&f.sel),
+    })
+}
+
+fn defs_in_domain(d: &Doc) -> bool {
+    // async-graphql keeps operations and fragments in maps and therefore rejects, at parse time, duplicates and
+    // anonymous operations next to others; such documents are invalid anyway (validation rules) and are outside
+    // the compared domain
+    let mut names = std::collections::HashSet::new();
+    let nops = d.ops().count();
+    for o in d.ops() {
+        match &o.name {
+            None => {
+                if nops > 1 {
+                    return false;
+                }
+            }
+            Some(n) => {
+                if !names.insert(n.s.clone()) {
+                    return false;
+                }
+            }
+        }
+    }
+    let mut f = std::collections::HashSet::new();
+    d.frags().all(|x| f.insert(x.name.s.clone()))
+}
+
+pub fn normal(d: &Doc) -> Doc {
+    let mut d = strip_doc(d);
+    canon_numbers(&mut d);
+    normalize_defs(&mut d);
+    d
+}
+
+fn first_diff(a: &Doc, b: &Doc) -> String {
+    let sa = format!("{:#?}", a);
+    let sb = format!("{:#?}", b);
+    for (i, (x, y)) in sa.lines().zip(sb.lines()).enumerate() {
+        if x != y {
+            return format!("line {} of debug tree: expected `{}` got `{}`", i, x.trim(), y.trim());
+        }
+    }
+    format!("trees differ in length ({} vs {} lines)", sa.lines().count(), sb.lines().count())
+}
+
+fn dup_object_keys(d: &Doc) -> bool {
+    fn val(v: &PVal) -> bool {
+        match &v.v {
+            Val::List(l) => l.iter().any(val),
+            Val::Obj(o) => {
+                let mut k = std::collections::HashSet::new();
+                !o.iter().all(|(n, _)| k.insert(n.s.clone())) || o.iter().any(|(_, v)| val(v))
+            }
+            _ => false,
+        }
+    }
+    fn dirs(ds: &[Directive]) -> bool {
+        ds.iter().any(|d| d.args.iter().any(|(_, v)| val(v)))
+    }
+    fn sel(s: &SelSet) -> bool {
+        s.items.iter().any(|it| match it {
+            Selection::Field(f) => f.args.iter().any(|(_, v)| val(v)) || dirs(&f.directives) || sel(&f.sel),
+            Selection::Inline(i) => dirs(&i.directives) || sel(&i.sel),
+            Selection::Spread(s) => dirs(&s.directives),
+        })
+    }
+    d.defs.iter().any(|def| match def {
+        Def::Op(o) => o.vars.iter().any(|v| v.default.as_ref().map_or(false, val) || dirs(&v.directives)) || dirs(&o.directives) || sel(&o.sel),
+        Def::Frag(f) => dirs(&f.directives) || sel(&f.sel),
+    })
+}
+
+/// judge one executable text against the reference parser. `f2_open`: known finding C13-F2 is listed as open
+/// (variable directives are also accepted before the default value).
+pub fn judge_exec(text: &str, f2_open: bool) -> (Result<(), String>, &'static str) {
+    if has_dont_care_chars(text) {
+        return (Ok(()), "dont-care-chars");
+    }
+    let opts = Opts::default();
+    let r = parse_executable(text, &opts);
+    let a = parse_query(text);
+    match (r, a) {
+        (Err(e), Ok(ad)) => {
+            if e.dont_care {
+                return (Ok(()), "dont-care");
+            }
+            if f2_open {
+                // quirk: identical to the specification grammar except that `$v: T @d = dv` is accepted too
+                let q = Opts { legacy_var_directive_order: true, ..Opts::default() };
+                if let Ok(rd) = parse_executable(text, &q) {
+                    if !defs_in_domain(&rd) || !numbers_in_domain(&rd) || dup_object_keys(&rd) {
+                        return (Ok(()), "dont-care");
+                    }
+                    if normal(&rd) == normal(&agconv::doc(&ad)) {
+                        return (Ok(()), "KNOWN:C13-F2");
+                    }
+                }
+            }
+            (Err(format!("accepted, but the reference parser rejects it at {}:{}: {}", e.pos.line, e.pos.col, e.msg)), "ref-reject")
+        }
+        (Err(_), Err(_)) => (Ok(()), "both-reject"),
+        (Ok(rd), a) => {
+            if !defs_in_domain(&rd) {
+                return (Ok(()), "dup-defs");
+            }
+            if !numbers_in_domain(&rd) {
+                return (Ok(()), "number-out-of-model");
+            }
+            if dup_object_keys(&rd) {
+                return (Ok(()), "dup-object-keys");
+            }
+            let depth = refparse::sel_depth(&rd);
+            match a {
+                Err(e) => {
+                    // documented deviation: nesting limit 64 (depth 65 is a boundary band where neither verdict is
+                    // demanded: "at most 64 levels deep" can be read with or without the root set)
+                    if depth >= 65 {
+                        return (Ok(()), "deep");
+                    }
+                    (Err(format!("rejected ({}), but it is a GraphQL document", e.to_string().replace('\n', " "))), "ag-reject")
+                }
+                Ok(ad) => {
+                    if depth >= 66 {
+                        return (Err(format!("accepted a document nesting {} selection sets (documented limit 64)", depth)), "deep-accepted");
+                    }
+                    let x = normal(&rd);
+                    let y = normal(&agconv::doc(&ad));
+                    if x == y {
+                        (Ok(()), "both-accept")
+                    } else {
+                        (Err(format!("parsed tree differs from the denoted tree: {}", first_diff(&x, &y))), "tree-diff")
+                    }
+                }
+            }
+        }
+    }
+}
+
+// ------------------------------------------------------------------ service documents
+
+fn sdl_dirs(ds: &[async_graphql_parser::Positioned<ag::ConstDirective>]) -> Vec<Directive> {
+    ds.iter()
+        .map(|d| Directive {
+            pos: Pos::default(),
+            name: Name::new(d.node.name.node.as_str()),
+            args: d.node.arguments.iter().map(|(n, v)| (Name::new(n.node.as_str()), PVal::new(agconv::const_value(&v.node)))).collect(),
+        })
+        .collect()
+}
+fn sdl_input(i: &ag::InputValueDefinition) -> InputDefn {
+    InputDefn {
+        desc: i.description.as_ref().map(|d| d.node.clone()),
+        name: i.name.node.to_string(),
+        ty: agconv::ty(&i.ty.node),
+        default: i.default_value.as_ref().map(|v| agconv::const_value(&v.node)),
+        directives: sdl_dirs(&i.directives),
+    }
+}
+fn sdl_fields(fs: &[async_graphql_parser::Positioned<ag::FieldDefinition>]) -> Vec<FieldDefn> {
+    fs.iter()
+        .map(|f| FieldDefn {
+            desc: f.node.description.as_ref().map(|d| d.node.clone()),
+            name: f.node.name.node.to_string(),
+            args: f.node.arguments.iter().map(|a| sdl_input(&a.node)).collect(),
+            ty: agconv::ty(&f.node.ty.node),
+            directives: sdl_dirs(&f.node.directives),
+        })
+        .collect()
+}
+fn loc_name(l: ag::DirectiveLocation) -> &'static str {
+    use ag::DirectiveLocation::*;
+    match l {
+        Query => "QUERY",
+        Mutation => "MUTATION",
+        Subscription => "SUBSCRIPTION",
+        Field => "FIELD",
+        FragmentDefinition => "FRAGMENT_DEFINITION",
+        FragmentSpread => "FRAGMENT_SPREAD",
+        InlineFragment => "INLINE_FRAGMENT",
+        Schema => "SCHEMA",
+        Scalar => "SCALAR",
+        Object => "OBJECT",
+        FieldDefinition => "FIELD_DEFINITION",
+        ArgumentDefinition => "ARGUMENT_DEFINITION",
+        Interface => "INTERFACE",
+        Union => "UNION",
+        Enum => "ENUM",
+        EnumValue => "ENUM_VALUE",
+        InputObject => "INPUT_OBJECT",
+        InputFieldDefinition => "INPUT_FIELD_DEFINITION",
+        VariableDefinition => "VARIABLE_DEFINITION",
+    }
+}
+pub fn sdl_doc(d: &ag::ServiceDocument) -> SdlDoc {
+    let mut defs = vec![];
+    for def in &d.definitions {
+        match def {
+            ag::TypeSystemDefinition::Schema(s) => {
+                let mut ops = vec![];
+                if let Some(q) = &s.node.query {
+                    ops.push((OpKind::Query, q.node.to_string()));
+                }
+                if let Some(q) = &s.node.mutation {
+                    ops.push((OpKind::Mutation, q.node.to_string()));
+                }
+                if let Some(q) = &s.node.subscription {
+                    ops.push((OpKind::Subscription, q.node.to_string()));
+                }
+                defs.push(SdlDef::Schema(SchemaDefn { extend: s.node.extend, desc: s.node.description.as_ref().map(|d| d.node.clone()), directives: sdl_dirs(&s.node.directives), ops }));
+            }
+            ag::TypeSystemDefinition::Directive(dd) => defs.push(SdlDef::Directive(DirectiveDefn {
+                desc: dd.node.description.as_ref().map(|d| d.node.clone()),
+                name: dd.node.name.node.to_string(),
+                args: dd.node.arguments.iter().map(|a| sdl_input(&a.node)).collect(),
+                repeatable: dd.node.is_repeatable,
+                locations: dd.node.locations.iter().map(|l| loc_name(l.node).to_string()).collect(),
+            })),
+            ag::TypeSystemDefinition::Type(t) => {
+                let mut td = TypeDefn {
+                    extend: t.node.extend,
+                    desc: t.node.description.as_ref().map(|d| d.node.clone()),
+                    kind: TKind::Scalar,
+                    name: t.node.name.node.to_string(),
+                    interfaces: vec![],
+                    directives: sdl_dirs(&t.node.directives),
+                    fields: vec![],
+                    members: vec![],
+                    values: vec![],
+                    input_fields: vec![],
+                };
+                match &t.node.kind {
+                    ag::TypeKind::Scalar => {}
+                    ag::TypeKind::Object(o) => {
+                        td.kind = TKind::Object;
+                        td.interfaces = o.implements.iter().map(|n| n.node.to_string()).collect();
+                        td.fields = sdl_fields(&o.fields);
+                    }
+                    ag::TypeKind::Interface(o) => {
+                        td.kind = TKind::Interface;
+                        td.interfaces = o.implements.iter().map(|n| n.node.to_string()).collect();
+                        td.fields = sdl_fields(&o.fields);
+                    }
+                    ag::TypeKind::Union(u) => {
+                        td.kind = TKind::Union;
+                        td.members = u.members.iter().map(|n| n.node.to_string()).collect();
+                    }
+                    ag::TypeKind::Enum(e) => {
+                        td.kind = TKind::Enum;
+                        td.values = e
+                            .values
+                            .iter()
+                            .map(|v| EnumValDefn {
+                                desc: v.node.description.as_ref().map(|d| d.node.clone()),
+                                name: v.node.value.node.to_string(),
+                                directives: sdl_dirs(&v.node.directives),
+                            })
+                            .collect();
+                    }
+                    ag::TypeKind::InputObject(i) => {
+                        td.kind = TKind::Input;
+                        td.input_fields = i.fields.iter().map(|f| sdl_input(&f.node)).collect();
+                    }
+                }
+                defs.push(SdlDef::Type(td));
+            }
+        }
+    }
+    SdlDoc { defs }
+}
+
+fn sdl_normal(d: &SdlDoc) -> SdlDoc {
+    // canonical numbers + position-free values
+    fn val(v: &mut Val) {
+        match v {
+            Val::Int(t) => {
+                if let Ok(i) = t.parse::<i128>() {
+                    *t = i.to_string()
+                }
+            }
+            Val::Float(t) => {
+                if let Ok(f) = t.parse::<f64>() {
+                    *t = format!("f:{:016x}", f.to_bits())
+                }
+            }
+            Val::List(l) => l.iter_mut().for_each(|x| {
+                x.pos = Pos::default();
+                val(&mut x.v)
+            }),
+            Val::Obj(o) => o.iter_mut().for_each(|(n, x)| {
+                n.pos = Pos::default();
+                x.pos = Pos::default();
+                val(&mut x.v)
+            }),
+            _ => {}
+        }
+    }
+    fn dirs(ds: &mut Vec<Directive>) {
+        for d in ds {
+            d.pos = Pos::default();
+            d.name.pos = Pos::default();
+            for (n, v) in &mut d.args {
+                n.pos = Pos::default();
+                v.pos = Pos::default();
+                val(&mut v.v);
+            }
+        }
+    }
+    fn input(i: &mut InputDefn) {
+        if let Some(v) = &mut i.default {
+            val(v);
+        }
+        dirs(&mut i.directives);
+    }
+    let mut d = d.clone();
+    for def in &mut d.defs {
+        match def {
+            SdlDef::Schema(s) => dirs(&mut s.directives),
+            SdlDef::Directive(dd) => dd.args.iter_mut().for_each(input),
+            SdlDef::Type(t) => {
+                dirs(&mut t.directives);
+                for f in &mut t.fields {
+                    f.args.iter_mut().for_each(input);
+                    dirs(&mut f.directives);
+                }
+                for v in &mut t.values {
+                    dirs(&mut v.directives);
+                }
+                t.input_fields.iter_mut().for_each(input);
+            }
+        }
+    }
+    d
+}
+
+fn sdl_numbers_in_domain(d: &SdlDoc) -> bool {
+    let t = format!("{:?}", d);
+    // cheap: re-use the exec checker through a synthetic walk is overkill; scan values
+    fn val(v: &Val) -> bool {
+        match v {
+            Val::Int(t) => t != "-0" && (t.parse::<i64>().is_ok() || t.parse::<u64>().is_ok()),
+            Val::Float(t) => t.parse::<f64>().map_or(false, |f| f.is_finite()),
+            Val::List(l) => l.iter().all(|x| val(&x.v)),
+            Val::Obj(o) => o.iter().all(|(_, x)| val(&x.v)),
+            _ => true,
+        }
+    }
+    let _ = t;
+    fn dirs(ds: &[Directive]) -> bool {
+        ds.iter().all(|d| d.args.iter().all(|(_, v)| val(&v.v)))
+    }
+    fn input(i: &InputDefn) -> bool {
+        i.default.as_ref().map_or(true, val) && dirs(&i.directives)
+    }
+    d.defs.iter().all(|def| match def {
+        SdlDef::Schema(s) => dirs(&s.directives),
+        SdlDef::Directive(dd) => dd.args.iter().all(input),
+        SdlDef::Type(t) => {
+            dirs(&t.directives)
+                && t.fields.iter().all(|f| f.args.iter().all(input) && dirs(&f.directives))
+                && t.values.iter().all(|v| dirs(&v.directives))
+                && t.input_fields.iter().all(input)
+        }
+    })
+}
+
+fn sdl_dup_keys(d: &SdlDoc) -> bool {
+    fn val(v: &Val) -> bool {
+        match v {
+            Val::List(l) => l.iter().any(|x| val(&x.v)),
+            Val::Obj(o) => {
+                let mut k = std::collections::HashSet::new();
+                !o.iter().all(|(n, _)| k.insert(n.s.clone())) || o.iter().any(|(_, x)| val(&x.v))
+            }
+            _ => false,
+        }
+    }
+    fn dirs(ds: &[Directive]) -> bool {
+        ds.iter().any(|d| d.args.iter().any(|(_, v)| val(&v.v)))
+    }
+    fn input(i: &InputDefn) -> bool {
+        i.default.as_ref().map_or(false, val) || dirs(&i.directives)
+    }
+    d.defs.iter().any(|def| match def {
+        SdlDef::Schema(s) => dirs(&s.directives),
+        SdlDef::Directive(dd) => dd.args.iter().any(input),
+        SdlDef::Type(t) => {
+            dirs(&t.directives)
+                || t.fields.iter().any(|f| f.args.iter().any(input) || dirs(&f.directives))
+                || t.values.iter().any(|v| dirs(&v.directives))
+                || t.input_fields.iter().any(input)
+        }
+    })
+}
+
+pub fn judge_sdl(text: &str) -> (Result<(), String>, &'static str) {
+    if has_dont_care_chars(text) {
+        return (Ok(()), "dont-care-chars");
+    }
+    let opts = Opts::default();
+    let r = parse_type_system(text, &opts);
+    let a = parse_schema(text);
+    match (r, a) {
+        (Err(e), Ok(_)) => {
+            if e.dont_care {
+                return (Ok(()), "dont-care");
+            }
+            (Err(format!("accepted, but the reference parser rejects it at {}:{}: {}", e.pos.line, e.pos.col, e.msg)), "ref-reject")
+        }
+        (Err(_), Err(_)) => (Ok(()), "both-reject"),
+        (Ok(rd), a) => {
+            if !sdl_numbers_in_domain(&rd) {
+                return (Ok(()), "number-out-of-model");
+            }
+            // a schema definition naming the same operation type twice cannot be represented by the tree, and one
+            // without a query root is rejected at parse time by design (type-system validity, not grammar)
+            for d in &rd.defs {
+                if let SdlDef::Schema(s) = d {
+                    let mut k = std::collections::HashSet::new();
+                    if !s.ops.iter().all(|(o, _)| k.insert(*o)) {
+                        return (Ok(()), "dup-root-op");
+                    }
+                    if !s.extend && !s.ops.iter().any(|(o, _)| *o == OpKind::Query) {
+                        return (Ok(()), "no-query-root");
+                    }
+                }
+            }
+            if format!("{:?}", rd).contains("Obj(") && sdl_dup_keys(&rd) {
+                return (Ok(()), "dup-object-keys");
+            }
+            match a {
+                Err(e) => (Err(format!("rejected ({}), but it is a type-system document", e.to_string().replace('\n', " "))), "ag-reject"),
+                Ok(ad) => {
+                    let x = sdl_normal(&rd);
+                    let y = sdl_normal(&sdl_doc(&ad));
+                    if x == y {
+                        (Ok(()), "both-accept")
+                    } else {
+                        let sa = format!("{:#?}", x);
+                        let sb = format!("{:#?}", y);
+                        let diff = sa.lines().zip(sb.lines()).find(|(p, q)| p != q).map(|(p, q)| format!("expected `{}` got `{}`", p.trim(), q.trim())).unwrap_or_default();
+                        (Err(format!("parsed tree differs from the denoted tree: {}", diff)), "tree-diff")
+                    }
+                }
+            }
+        }
+    }
+}
+
+// ------------------------------------------------------------------ near-miss mutation
+
+const SNIPPETS: [&str; 40] = [
+    "01", "1.", "1e", ".5", "-", "query()", "[ Int ]", "...on", "\"\"\"", "\\uD800", "\\uDFFF", "extend", "&", "|", "= 1 @d", "@d = 1",
+    "{", "}", "(", ")", "[", "]", ":", "!", "$", "@", "=", "...", "..", "\"", "\\", "#", "\n", "\r", ",", " ", "on", "0", "e", "\u{feff}",
+];
+
+/// `skip_f2`: leave out the snippet that constructs the open finding C13-F2 (excluded by construction)
+pub fn mutate(s: &mut dyn Src, text: &str, skip_f2: bool) -> String {
+    let mut cs: Vec<char> = text.chars().collect();
+    let n = 1 + s.choose(2);
+    for _ in 0..n {
+        let len = cs.len();
+        let at = s.choose(len + 1);
+        match s.choose(6) {
+            0 if len > 0 => {
+                cs.remove(at.min(len - 1));
+            }
+            1 => {
+                let mut snip = SNIPPETS[s.choose(SNIPPETS.len())];
+                if skip_f2 && snip == "@d = 1" {
+                    snip = "= 1 @d";
+                }
+                for (k, c) in snip.chars().enumerate() {
+                    cs.insert((at + k).min(cs.len()), c);
+                }
+            }
+            2 if len > 1 => {
+                let i = at.min(len - 2);
+                cs.swap(i, i + 1);
+            }
+            3 if len > 0 => {
+                // duplicate a short span
+                let i = at.min(len - 1);
+                let l = 1 + s.choose(6.min(len - i));
+                let span: Vec<char> = cs[i..i + l].to_vec();
+                for (k, c) in span.into_iter().enumerate() {
+                    cs.insert(i + l + k, c);
+                }
+            }
+            4 if len > 0 => {
+                // delete a short span
+                let i = at.min(len - 1);
+                let l = 1 + s.choose(4.min(len - i));
+                cs.drain(i..i + l);
+            }
+            _ if len > 0 => {
+                // remove the whitespace run at/after `at` (token merging: keyword boundaries, number lookahead)
+                let mut i = at.min(len - 1);
+                while i < cs.len() && !matches!(cs[i], ' ' | '\t' | ',' | '\n' | '\r') {
+                    i += 1;
+                }
+                while i < cs.len() && matches!(cs[i], ' ' | '\t' | ',' | '\n' | '\r') {
+                    cs.remove(i);
+                }
+            }
+            _ => {}
+        }
+    }
+    cs.into_iter().collect()
+}
+
+pub fn run(ctx: &mut Ctx) {
+    ctx.rule = "executable and type-system documents printed from generated ASTs with random trivia (spaces, tabs, commas, BOM, LF/CRLF/CR, comments), \
+                escapes and block strings must parse to the generating tree; near-miss character/snippet mutations are accepted iff the reference parser \
+                (written from the Oct-2021 grammar, deviations: scalar-only escapes, nesting<=64) accepts, with equal trees. Non-trivial = contains a string escape, \
+                an indented block string, a list type reference, or is a mutation on which the reference parser and the printer's intent differ (rejected near-miss); \
+                distinct by text".into();
+    ctx.assume("don't-care: raw control characters other than TAB/LF/CR in source text, and variable-width \\u{...} escapes (2021 edition and current draft disagree)");
+    ctx.assume("outside the compared domain: duplicate operation/fragment names and anonymous operations next to others (rejected by design at parse time; invalid anyway), \
+                duplicate root operation types in one schema definition, integer literals outside i64/u64 and `-0`, float literals that overflow f64");
+    ctx.assume("selection-set nesting: <=64 must be accepted, >=66 rejected, 65 is a boundary band with no demanded verdict");
+    ctx.assume("positions are C14's subject");
+    let ex = Excl::from_ctx(ctx);
+    let f2 = ctx.open("C13-F2");
+    let n = ctx.tier.pick(30_000, 1_000_000);
+    let to_case = |text: String, r: Result<(), String>, cls: &str, prefix: &str| -> Case {
+        if let Some(fid) = cls.strip_prefix("KNOWN:") {
+            return Case::known(text, vec![fid.to_string()]).class(format!("{}known", prefix));
+        }
+        match r {
+            Ok(()) => Case::pass(text).nontrivial(cls == "both-reject").class(format!("{}{}", prefix, cls)),
+            Err(e) => Case::fail(text, e).class(format!("{}{}", prefix, cls)),
+        }
+    };
+
+    // explicit regression / probe inputs
+    for (i, (kind, text)) in REGRESSIONS.iter().enumerate() {
+        let (r, cls) = if *kind == "exec" { judge_exec(text, f2) } else { judge_sdl(text) };
+        let c = to_case(format!("{}: {}", kind, text), r, cls, "regression-");
+        ctx.check_case("regressions", c.nontrivial(true), serde_json::json!({"index": i, "text": text}));
+    }
+
+    ctx.stream("exec-positive", n, 400, |s| {
+        let p = gen_printed_exec(s, ex);
+        // self-check of the harness: the reference parser must read the printer's output back to the same tree
+        let rd = match parse_executable(&p.text, &Opts::default()) {
+            Ok(d) => d,
+            Err(e) => return Case::fail(p.text.clone(), format!("HARNESS self-check: reference parser rejects printer output: {:?}", e)),
+        };
+        if normal(&rd) != normal(&p.doc) {
+            return Case::fail(p.text.clone(), format!("HARNESS self-check: reference parser tree differs from generator: {}", first_diff(&normal(&p.doc), &normal(&rd))));
+        }
+        if !numbers_in_domain(&p.doc) {
+            return Case::discard("number-out-of-model");
+        }
+        let mut c = match parse_query(&p.text) {
+            Err(e) => Case::fail(p.text.clone(), format!("valid document rejected: {}", e.to_string().replace('\n', " "))),
+            Ok(ad) => {
+                let x = normal(&p.doc);
+                let y = normal(&agconv::doc(&ad));
+                if x == y {
+                    Case::pass(p.text.clone())
+                } else {
+                    Case::fail(p.text.clone(), format!("parsed tree differs from the generating tree: {}", first_diff(&x, &y)))
+                }
+            }
+        };
+        c.nontrivial = c.nontrivial || p.nontrivial;
+        for cl in &p.classes {
+            c.classes.push(cl.to_string());
+        }
+        c
+    });
+
+    ctx.stream("sdl-positive", n / 2, 400, |s| {
+        let cfg = GenCfg::default();
+        let d = gen_sdl_doc(s, &cfg, true);
+        let mut p = Printer::new(style(s, ex));
+        p.sdl(&d);
+        let text = p.out.clone();
+        let rd = match parse_type_system(&text, &Opts::default()) {
+            Ok(d) => d,
+            Err(e) => return Case::fail(text, format!("HARNESS self-check: reference parser rejects printer output: {:?}", e)),
+        };
+        if sdl_normal(&rd) != sdl_normal(&d) {
+            return Case::fail(text, "HARNESS self-check: reference parser tree differs from generator".to_string());
+        }
+        let (r, cls) = judge_sdl(&text);
+        let nt = p.n_escapes > 0 || p.n_block_indented > 0;
+        match r {
+            Ok(()) => Case::pass(text).nontrivial(nt).class(format!("sdl-{}", cls)),
+            Err(e) => Case::fail(text, e).class(format!("sdl-{}", cls)),
+        }
+        .class_if(d.defs.iter().any(|x| matches!(x, SdlDef::Type(t) if t.extend)), "sdl-extension")
+    });
+
+    ctx.stream("exec-negative", n, 400, |s| {
+        let p = gen_printed_exec(s, ex);
+        let text = mutate(s, &p.text, f2);
+        let (r, cls) = judge_exec(&text, f2);
+        to_case(text, r, cls, "neg-")
+    });
+
+    ctx.stream("sdl-negative", n / 2, 400, |s| {
+        let cfg = GenCfg::default();
+        let d = gen_sdl_doc(s, &cfg, true);
+        let printed = {
+            let mut p = Printer::new(style(s, ex));
+            p.sdl(&d);
+            p.out
+        };
+        let text = mutate(s, &printed, f2);
+        let (r, cls) = judge_sdl(&text);
+        match r {
+            Ok(()) => Case::pass(text).nontrivial(cls == "both-reject").class(format!("sdlneg-{}", cls)),
+            Err(e) => Case::fail(text, e).class(format!("sdlneg-{}", cls)),
+        }
+    });
+    ctx.floor("neg-both-reject", 1000);
+    ctx.floor("neg-both-accept", 1000);
+}
+
+/// witnesses of the defects found while building this check (all repaired in /repo: they must stay repaired)
+const REGRESSIONS: &[(&str, &str)] = &[
+    ("exec", "query($a: [ Int ] ! = [1]) { f }"),
+    ("exec", "query($a: Int = 1 @d) { f }"),
+    ("exec", "query($a: Int @d = 1) { f }"),
+    ("exec", "{ f(a: [01]) }"),
+    ("exec", "{ f(a: \"\"\"x \\\"\"\" y\"\"\") }"),
+    ("exec", "query () { f }"),
+    ("exec", "queryFoo { f }"),
+    ("exec", "{ f(a: [truex]) }"),
+    ("exec", "{ ... on#c\n T { f } }"),
+    ("exec", "fragmentX on T { f } { ...X }"),
+    ("sdl", "extend interface I implements J"),
+    ("sdl", "\"d\" schema { query: Q }"),
+    ("sdl", "typeFoo { a: Int }"),
+];
